@@ -117,3 +117,19 @@ Fixpoint fdisc_from (used w adv : list nat) (p : fprog) : bool :=
   end.
 
 Definition fdisc (p : fprog) : bool := fdisc_from (used_cursors p) [] [] p.
+
+(* ---- the same body as an iteration of a PARALLEL loop (omp for / cython prange over frames or atoms) ----
+   The iteration index is the input; the cells are the thread-private variables (MD.Sched.ParFor threads them through
+   the iterations a thread runs); the output of iteration i is the list of (position, value) writes.  A parallel loop
+   must not use self-advanced cursors (their meaning depends on the serial order): [par_ok] asks for none. *)
+Definition fbody (G : nat -> Z) (A : nat -> nat -> Z) (p : fprog) (st : fstate) (i : nat) : fstate * list (nat * Z) :=
+  frun G A p i st.
+
+Definition cursor_free (p : fprog) : bool := match used_cursors p with [] => true | _ :: _ => false end.
+Fixpoint no_adv (p : fprog) : bool :=
+  match p with
+  | [] => true
+  | FAdv _ :: _ => false
+  | _ :: r => no_adv r
+  end.
+Definition par_ok (p : fprog) : bool := fdisc p && cursor_free p && no_adv p.
